@@ -130,6 +130,8 @@ class C12(Machine):
                 t.annotations.add_bound_attribute("label")
                 nd = rawtree.raw_nodes(t)[-1]
                 nd.annotations.add_bound_attribute("label")
+                # an annotation of the tree bound to an attribute of ANOTHER object of the same tree (its seed edge)
+                t.annotations.add_bound_attribute("length", annotation_name="root_length", owner_instance=t.seed_node.edge)
             if cfg["encoded"]:
                 t.encode_bipartitions()
                 if cfg["extra_attr"]:
@@ -138,6 +140,8 @@ class C12(Machine):
             if cfg["extra_attr"]:
                 t.extra = {"k": [1, 2, 3]}
                 rawtree.raw_nodes(t)[-1].mark = ["m"]
+                rawtree.raw_nodes(t)[0].hpd = ([0.25, 0.75], {"n": [3]})      # immutable outside, mutable inside
+                rawtree.raw_nodes(t)[0].edge.span = ({"lo": [0]},)
             return t
         if kind == "tree":
             return mk_tree(init["trees"][0], 0), ns
@@ -199,7 +203,10 @@ class C12(Machine):
             ns2 = dendropy.TaxonNamespace(label="ns2")
             return type(src)(src, taxon_namespace=ns2), ns2
         if route == "extract_tree":
-            return src.extract_tree(extraction_source_reference_attr_name=None), None
+            # the documented factories are part of the route (default / the class itself / a subclass with an explicit node factory)
+            v = cfg["addr_seed"] % 3
+            kw = {} if v == 0 else ({"tree_factory": dendropy.Tree} if v == 1 else {"tree_factory": _SubTree, "node_factory": dendropy.Node})
+            return src.extract_tree(extraction_source_reference_attr_name=None, **kw), None
         raise ValueError(route)
 
     def _run(self, plan, rec):
@@ -231,6 +238,10 @@ class C12(Machine):
         if depth == "extract":
             if _nested(src) != _nested(cp):
                 rec.violation("NOT_EQUAL_AT_COPY", base, "extracted tree differs in structure/lengths/labels/taxa: %s vs %s" % (_nested(src), _nested(cp)))
+                return
+            if cp.is_rooted != src.is_rooted or cp.label != src.label:
+                rec.violation("NOT_EQUAL_AT_COPY", dict(base, where="rooting_or_label"),
+                              "extracted tree has rooting %r and label %r, its source %r and %r" % (cp.is_rooted, cp.label, src.is_rooted, src.label))
                 return
         elif depth != "shallow":
             # (documented shallow copies: only membership is compared, in _disjoint)
@@ -656,6 +667,10 @@ class C12(Machine):
                 return False
             return True
         return False
+
+
+class _SubTree(dendropy.Tree):
+    pass
 
 
 def _nested(tree):
